@@ -322,6 +322,9 @@ class FromField(Metric):
         if axis_pos is not None:
             I = np.where(interval.within(values_array[axis_pos]))[0]
             values = values[I]
+            if len(values) == 0:
+                # No values inside this obs/fcst interval
+                return np.nan
 
         return self.aggregator(values)
 
